@@ -146,6 +146,7 @@ class JavaRecord(JavaBaseType):
         return "java" in self.decl.targets
 
     @cached_property
+    @validate(keywords)
     def name(self):
         name = self.decl.name
         if self.base_type:
@@ -154,6 +155,7 @@ class JavaRecord(JavaBaseType):
 
     @computed_field
     @cached_property
+    @validate(keywords, separator='.')
     def typename(self) -> str:
         name = self.decl.name.convert(self.config.identifier.type)
         return f"{self.package}.{name}"
